@@ -124,6 +124,11 @@ func (m *mstate) apply(w world, ev string) {
 		if p[1] == "oob" || i < 0 || i >= len(m.st) {
 			return
 		}
+		if kind == "good" && m.deal == "commit-replaced" {
+			// the observer holds other commitments than the ones the (otherwise correct) justification brings along:
+			// for this observer the revealed share does not lie on the committed polynomial
+			kind = "bad-commitments-differ-from-the-observers"
+		}
 		if strings.HasPrefix(kind, "bad") {
 			m.badEver = true
 		}
